@@ -45,7 +45,7 @@ REDUCED = [
     ["- 240203#00 carries the first zid of a date other items are dated with"],
     ["x 2024-02-29 done on a leap day"],
 ]
-LAYOUTS = ["same_block", "two_blocks", "dated_h2", "subdir", "two_pages", "same_name_pages", "deep_sections", "h2_first", "crlf"]
+LAYOUTS = ["same_block", "two_blocks", "dated_h2", "subdir", "two_pages", "same_name_pages", "deep_sections", "h2_first", "crlf", "odd_separators"]
 
 
 def variant_items():
@@ -100,6 +100,11 @@ def build_files(case) -> dict[str, str]:
     A, B = "\n".join(a) + "\n", "\n".join(b) + "\n"
     if layout == "same_block":
         return {"a.zo": "# t\n\n" + A + B}
+    if layout == "odd_separators":
+        # U+2028 / U+2029 / U+0085 (pasted from a web page or a word processor) inside earlier
+        # notes: none of them is a line break of a page
+        return {"a.zo": "# t with \u2028 in the title\n\n- 240107#Z8 pasted \u2028 text \u2029 here\n  continued \u0085 line\n"
+                + A + "- 240108#ZE more \u2028\u2028 of it\n" + B}
     if layout == "crlf":
         # a page with Windows line endings is a valid page; only the first lines of the
         # formerly ZID-less items may change
